@@ -3,7 +3,7 @@ import os
 import vlib
 
 
-def replay_layer(ctx, module, cfg, mode, tag, args=None, workers=10, heap="3g", timeout=1800, env_extra=None, sample_n=2, shape_filter=None):
+def replay_layer(ctx, module, cfg, mode, tag, args=None, workers=10, heap="3g", timeout=1800, env_extra=None, sample_n=2, shape_filter=None, tracefile=None):
     """TLC explores <cfg> exhaustively and prints one JSON line per terminal state; the harness mode
     replays each on the real code.  Mismatches become violations (through ctx.drv)."""
     cases = os.path.join(ctx.scratch, tag + "_cases.ndjson")
@@ -13,7 +13,7 @@ def replay_layer(ctx, module, cfg, mode, tag, args=None, workers=10, heap="3g", 
     if r["dumped"] == 0:
         raise vlib.Infra("TLC printed no terminal state for " + cfg)
     mm = os.path.join(ctx.scratch, tag + "_mm.ndjson")
-    res = ctx.drv(mode, infile=cases, outfile=mm, args=args or {}, env_extra=env_extra, shape_filter=shape_filter)
+    res = ctx.drv(mode, infile=cases, outfile=mm, tracefile=tracefile, args=args or {}, env_extra=env_extra, shape_filter=shape_filter)
     if res["cases"] != r["dumped"]:
         raise vlib.Infra("%s replayed %d of %d cases" % (mode, res["cases"], r["dumped"]))
     ctx.add("evaluations", res["runs"])
